@@ -1,6 +1,7 @@
 import RdsProofs.Reach
 import RdsProofs.C15Proofs
 import RdsProofs.LinkProofs
+import RdsProofs.Reentrant
 /-!
 # Property C15 — callbacks, user data and getters are pure observers
 
@@ -17,11 +18,20 @@ every history (as evaluated on the implementation's trace, where the harness als
 -- THEOREM: RDS.C15_events
 -- THEOREM: RDS.C15_ud
 -- THEOREM: RDS.C15_run
+-- `C15_nested_noop`: the nested-call model (`RdsModel/Reentrant.lean`, callbacks as state transformers threaded through the
+-- decoder in C's invocation order) collapses to the model the theorems above are about when the callbacks do not call the API.
+-- THEOREM: RDS.C15_nested_noop
+-- THEOREM: RDS.processH_noop
+-- THEOREM: RDS.mstepH_noop
 namespace RDS
 
 /-- C15's event clause for every history and every next call -/
 theorem C15 (tb : Tabs) (h : EccOk tb) (ops : List Op) (op : Op) :
     chkC15 (monAfter tb.cfg ops) (recOf tb.cfg (run tb.cfg ops) op) = true :=
   chkC15_ok tb _ _ op (reach tb h ops).1 (reach tb h ops).2
+
+/-- callbacks that only observe: the nested-call semantics of a call is the plain one -/
+theorem C15_nested_noop (cfg : Cfg) (s : State) (op : Op) : stepH cfg Handler.noop s op = step cfg s op :=
+  stepH_noop cfg s op
 
 end RDS
